@@ -23,9 +23,12 @@ func appendStackTrace(e *object.PanErr, src *ast.Source) *object.PanErr {
 	// append source info of src
 	out.WriteString(stackTrace)
 
-	e.StackTrace = out.String()
+	// NOTE: e may be shared (the object `_` is bound to, abstract props of Either obtained
+	// by `Either['A]`). Copy it, otherwise stack traces of previous evaluations are accumulated in it
+	copied := *e
+	copied.StackTrace = out.String()
 
-	return e
+	return &copied
 }
 
 func parseSrc(src *ast.Source) string {
